@@ -14,7 +14,8 @@ argument not read) must be an inquiry function of Fortran 2008 s13.5.
 """
 import z3
 from pyvc.interp import Contract, LoopSpec
-from pyvc.values import (VRef, VFunc, VBool, VInt, VTuple, NONE, Ref,
+from pyvc.values import (VRef, VFunc, VBool, VInt, VStr, VTuple, NONE, Ref,
+                         STR,
                          EnumDesc, VExc)
 from pyvc.state import fresh, PyRaise
 
@@ -348,6 +349,132 @@ def build(uni):
         modifies=list(uni.heap_extra) + ["$len", "$items.ref"],
         covers=[("ok", "True")])
     uni.contracts["Assignment.reference_accesses:top"] = c
+    cs.append(c)
+    # -------------------------------------------------------------------- Loop
+    LOOP = "psyir/nodes/loop.py"
+    REF = "psyir/nodes/reference.py"
+    BODYL = z3.Function("loop_body_of", Ref, Ref)
+    BOUNDL = z3.Function("loop_bound_expr", Ref, INT, Ref)
+    LVAR = z3.Function("loop_variable_of", Ref, Ref)      # may be null
+    uni.fields.update({"_variable": "DataSymbol"})
+
+    def lbound(k):
+        def h(it, s, a, kw, st, fr):
+            r = BOUNDL(s.e, z3.IntVal(k))
+            st.assume(z3.And(r != NULLC, z3.Select(AL0, r)))
+            return VRef(r, "Reference")
+        return h
+
+    def h_loop_body(it, s, a, kw, st, fr):
+        r = BODYL(s.e)
+        st.assume(z3.And(r != NULLC, z3.Select(AL0, r)))
+        return VRef(r, "BodyOf")
+    uni.method_hooks.update({
+        "Loop.start_expr": lbound(0), "Loop.stop_expr": lbound(1),
+        "Loop.step_expr": lbound(2), "Loop.loop_body": h_loop_body,
+        "Loop.variable": lambda it, s, a, k, st, fr: it.getattr(
+            VRef(s.e, "Obj"), "_variable", st, fr),
+        "DataSymbol.name": lambda it, s, a, k, st, fr: VStr(
+            fresh("varname", STR)),
+        "Symbol.name": lambda it, s, a, k, st, fr: VStr(
+            fresh("varname", STR)),
+    })
+    uni.prop_hooks["BodyOf.children"] = lambda it, s, a, k, st, fr: \
+        it.getattr(VRef(s.e, "Obj"), "_children", st, fr)
+    prev_construct = uni.construct_hook
+
+    def construct2(it, cname, args, kw, st, fr):
+        if cname == "Signature":
+            return VRef(fresh("signature", Ref), "Signature")
+        return prev_construct(it, cname, args, kw, st, fr)
+    uni.construct_hook = construct2
+    uni.consts.update({
+        "LBOUND": VFunc("hook", fn=lambda it, a, k, st, fr: VRef(
+            BOUNDL(a[0].e, it.as_int(a[1])), "Reference")),
+        "LBODY": VFunc("hook", fn=lambda it, a, k, st, fr: it.getattr(
+            VRef(BODYL(a[0].e), "Obj"), "_children", st, fr)),
+    })
+    c = Contract(
+        f"{LOOP}:Loop.reference_accesses",
+        params={"self": "Loop", "var_accesses": "VariablesAccessInfo"},
+        requires=[("tree", "var_accesses is not None and "
+                   "LBODY(self) is not None and forall(lambda q: implies("
+                   "0 <= q and q < len(LBODY(self)), "
+                   "at(LBODY(self), q) is not None))"),
+                  ("fresh_events", "NOEVENTS()")],
+        ensures=[
+            ("loop_variable_and_bounds_collected",
+             "implies(self._variable is not None, "
+             "accessed(self, var_accesses) and "
+             "visited(LBOUND(self, 0), var_accesses) and "
+             "visited(LBOUND(self, 1), var_accesses) and "
+             "visited(LBOUND(self, 2), var_accesses))"),
+            ("every_statement_of_the_body_visited",
+             "forall(lambda q: implies(0 <= q and q < len(LBODY(self)), "
+             "visited(at(LBODY(self), q), var_accesses)))"),
+        ],
+        raises={}, modifies=list(uni.heap_extra) + ["$len", "$items.ref"],
+        covers=[("with_variable", "self._variable is not None and "
+                                  "len(LBODY(self)) >= 2")])
+    uni.contracts["Loop.reference_accesses:top"] = c
+    uni.loopspecs["Loop.reference_accesses"] = {
+        0: LoopSpec(invariants=[
+            MONO,
+            ("iter", "_iter is LBODY(self)"),
+            ("done", "forall(lambda q: implies(0 <= q and q < _k, "
+                     "visited(at(LBODY(self), q), var_accesses)))")],
+            modifies=list(uni.heap_extra))}
+    cs.append(c)
+    # --------------------------------------------------------------- Reference
+    uni.fields.update({"_symbol": "SymbolOf"})
+    uni.prop_hooks.update({
+        "SymbolOf.is_import": lambda it, s, a, k, st, fr: VBool(
+            fresh("is_import", z3.BoolSort())),
+        "SymbolOf.interface": lambda it, s, a, k, st, fr: VRef(
+            s.e, "IfaceOf"),
+        "IfaceOf.orig_name": lambda it, s, a, k, st, fr: VStr(
+            fresh("orig_name", STR)),
+    })
+    uni.method_hooks.update({
+        "Reference.symbol": lambda it, s, a, k, st, fr: it.getattr(
+            VRef(s.e, "Obj"), "_symbol", st, fr),
+        "Signature.__getitem__": lambda it, s, a, k, st, fr: VRef(
+            fresh("sig_tail", Ref), "Signature"),
+    })
+    c = Contract(
+        f"{REF}:Reference.reference_accesses",
+        params={"self": "Reference", "var_accesses": "VariablesAccessInfo"},
+        requires=[("tree", "var_accesses is not None and "
+                           "self._symbol is not None"),
+                  ("fresh_events", "NOEVENTS()"),
+                  ("indices", "forall(lambda c, i: implies(0 <= c and "
+                   "c < len(INDICES(self)) and 0 <= i and "
+                   "i < len(at(INDICES(self), c)), "
+                   "at(at(INDICES(self), c), i) is not None))")],
+        ensures=[
+            ("read_access_recorded",
+             "accessed(self, var_accesses) and "
+             "atype(self) == enumidx(AccessType.READ)"),
+            ("all_index_expressions_visited",
+             "ALLIDX(self, var_accesses)"),
+        ],
+        raises={}, modifies=list(uni.heap_extra) + ["$len", "$items.ref"],
+        covers=[("ok", "True")])
+    uni.contracts["Reference.reference_accesses:top"] = c
+    uni.loopspecs["Reference.reference_accesses"] = {
+        0: LoopSpec(invariants=[
+            MONO,
+            ("done", "forall(lambda c, i: implies(0 <= c and c < _k and "
+                     "0 <= i and i < len(at(_iter, c)), "
+                     "visited(at(at(_iter, c), i), var_accesses)))"),
+            ("iter", "_iter is INDICES(self)")],
+            modifies=VISIT_ONLY),
+        1: LoopSpec(invariants=[
+            MONO,
+            ("done", "forall(lambda i: implies(0 <= i and i < _k, "
+                     "visited(at(_iter, i), var_accesses)))")],
+            modifies=VISIT_ONLY),
+    }
     cs.append(c)
     return cs
 
